@@ -3,6 +3,7 @@ package main
 import (
 	"fmt"
 	"io"
+	"sort"
 	"math/rand/v2"
 
 	"github.com/bronlabs/bron-crypto/pkg/base/serde"
@@ -125,7 +126,7 @@ func niLevel[X sigma.Statement, W sigma.Witness, A sigma.Statement, S sigma.Stat
 				ev["ctxP"] = base.tokens()
 				return ev
 			}
-			verifyWith := func(vcomp string, n compiler.NonInteractiveProtocol[X, W], c ctxCoord, xv X, pb []byte) (bool, bool) {
+			verifyWith := func(vcomp string, n compiler.NonInteractiveProtocol[X, W], c ctxCoord, xv X, pb []byte) (bool, string) {
 				err, pan := guard(func() error {
 					v, err := n.NewVerifier(newCtx(c, run))
 					if err != nil {
@@ -133,7 +134,7 @@ func niLevel[X sigma.Statement, W sigma.Witness, A sigma.Statement, S sigma.Stat
 					}
 					return v.Verify(xv, pb)
 				})
-				return err == nil && pan == "", pan != ""
+				return err == nil && pan == "", pan
 			}
 			// (1)+(2): contexts
 			for ci := -1; ci < 6; ci++ {
@@ -158,13 +159,13 @@ func niLevel[X sigma.Statement, W sigma.Witness, A sigma.Statement, S sigma.Stat
 						da, de, dz, derr := decodeReps[A, Z](oc, proof)
 						ok, pan := verifyWith(oc, n2, c, xv, proof)
 						emit("ni", common(map[string]any{"vcomp": vcomp, "ctxV": c.tokens(), "mut": "none", "shape": "", "decok": derr == nil,
-							"dec": project(p, it, da, de, dz), "ok": ok, "panic": pan}, xv))
+							"dec": project(p, it, da, de, dz), "ok": ok, "panic": pan != "", "panicmsg": pan}, xv))
 					}
 					continue
 				}
 				ok, pan := verifyWith(vcomp, n, c, xv, proof)
 				emit("ni", common(map[string]any{"vcomp": vcomp, "ctxV": c.tokens(), "mut": "none", "shape": "", "decok": true,
-					"dec": orig, "ok": ok, "panic": pan}, xv))
+					"dec": orig, "ok": ok, "panic": pan != "", "panicmsg": pan}, xv))
 			}
 			// (3): alterations of the bytes, same context
 			muts, err := mutations(proof, o.bits, o.toyQ, rnd)
@@ -172,16 +173,18 @@ func niLevel[X sigma.Statement, W sigma.Witness, A sigma.Statement, S sigma.Stat
 				panic(err)
 			}
 			if o.maxMut > 0 && len(muts) > o.maxMut {
-				// keep every class represented: stable shuffle, then round-robin over classes
+				// keep every (class, position shape) represented: shuffle, then round-robin over them
 				rnd.Shuffle(len(muts), func(i, j int) { muts[i], muts[j] = muts[j], muts[i] })
 				by := map[string][]mutation{}
 				var order []string
 				for _, m := range muts {
-					if _, ok := by[m.Class]; !ok {
-						order = append(order, m.Class)
+					ck := m.Class + "|" + m.Shape
+					if _, ok := by[ck]; !ok {
+						order = append(order, ck)
 					}
-					by[m.Class] = append(by[m.Class], m)
+					by[ck] = append(by[ck], m)
 				}
+				sort.Strings(order)
 				var sel []mutation
 				for len(sel) < o.maxMut {
 					progressed := false
@@ -198,9 +201,21 @@ func niLevel[X sigma.Statement, W sigma.Witness, A sigma.Statement, S sigma.Stat
 				}
 				muts = sel
 			}
+			// a two-leaf alteration: repetition 0 replaced by a simulated transcript for the same challenge
+			// (what a prover without witness can do when the challenge does not depend on the commitment)
+			{
+				e0 := make([]byte, p.Proto.GetChallengeBytesLength())
+				copy(e0[len(e0)-min(len(e0), len(oe[0])):], oe[0])
+				sa, sz := must2(p.Proto.RunSimulator(x, e0))
+				if rb, err := resimulated(proof, comp == "fs", must(serde.MarshalCBOR(sa)), must(serde.MarshalCBOR(sz))); err == nil {
+					muts = append(muts, mutation{Class: "resim", Path: "/rep0", Shape: "/rep0", Bytes: rb})
+				} else {
+					panic(fmt.Sprintf("resimulated: %v", err))
+				}
+			}
 			for _, m := range muts {
 				da, de, dz, derr := decodeReps[A, Z](comp, m.Bytes)
-				var dec []map[string]any
+				dec := []map[string]any{}
 				var perr string
 				if derr == nil {
 					_, perr = guard(func() error { dec = project(p, it, da, de, dz); return nil })
@@ -210,7 +225,7 @@ func niLevel[X sigma.Statement, W sigma.Witness, A sigma.Statement, S sigma.Stat
 				}
 				ok, pan := verifyWith(comp, nic, base, x, m.Bytes)
 				emit("ni", common(map[string]any{"vcomp": comp, "ctxV": base.tokens(), "mut": m.Class, "shape": m.Shape, "path": m.Path,
-					"decok": derr == nil, "dec": dec, "odd": perr != "", "ok": ok, "panic": pan}, x))
+					"decok": derr == nil, "dec": dec, "odd": perr != "", "ok": ok, "panic": pan != "", "panicmsg": pan}, x))
 			}
 		}
 	}
